@@ -153,7 +153,7 @@ def run(ctx, driver):
     ctx.rule = ("well-formed inputs of 1-2 entries (orders 0..3, both initial-value spellings) and ALL single structural corruptions of each entry at every "
                 "initial-value slot (no expression; 0 or 2 '='; initial values missing / superfluous / duplicated via key spelling / for another variable / "
                 "for a derivative >= order; both spellings; single value on a non-first-order equation; reserved names; marker in name), plus unknown option keys; "
-                "distinct = distinct inputs; non-trivial = every corrupted input and every well-formed input of order >= 1")
+                "distinct = distinct inputs; non-trivial = every corrupted input and every well-formed input of order >= 1; both-spellings also with an empty / null / zero singular value; every 4th input analysed with preserve_expressions=True, every 4th with the analytic solver disabled")
     cases = []
     nbase = ctx.n(10, 120)
     for i in range(nbase):
